@@ -240,13 +240,19 @@ def run_unit(unit_name, src, logdir):
         return res
     res["assumes"] = report["assumes"]
     res["functions"] = report["functions"]
-    outdir = os.path.join(vlib.VERIF, "evidence", "extracted")
-    os.makedirs(outdir, exist_ok=True)
-    path = os.path.join(outdir, unit_name + ".rs")
+    # verify a private copy (parallel checks must not overwrite each other's file), then publish it as evidence
+    os.makedirs(logdir, exist_ok=True)
+    path = os.path.join(logdir, unit_name + ".rs")
     with open(path, "w") as f:
         f.write(text)
-    rc, out, wall = vlib.run(["verus", path, "--time", "--rlimit", "60"], cwd=outdir, timeout=600,
+    rc, out, wall = vlib.run(["verus", path, "--time", "--rlimit", "60"], cwd=logdir, timeout=600,
                              out=os.path.join(logdir, "verus-%s.log" % unit_name))
+    outdir = os.path.join(vlib.VERIF, "evidence", "extracted")
+    os.makedirs(outdir, exist_ok=True)
+    tmp = os.path.join(outdir, ".%s.%d.tmp" % (unit_name, os.getpid()))
+    with open(tmp, "w") as f:
+        f.write(text)
+    os.replace(tmp, os.path.join(outdir, unit_name + ".rs"))
     res["time_s"] = round(wall, 2)
     res["raw"] = out
     m = re.search(r"verification results:: (\d+) verified, (\d+) errors", out)
